@@ -257,6 +257,11 @@ class RecHandler(BaseRequestHandler):
 
     async def on_error(self, error_code, payload):
         self._log('on_error', (int(error_code), pl(payload)))
+        f = self.beh.get('on_error')
+        if f:
+            r = f(self, payload)
+            if hasattr(r, '__await__'):
+                await r
 
     async def on_close(self, rsocket, exception=None):
         self._log('on_close', ())
